@@ -5,6 +5,9 @@
 import IcingaProofs.C17.Lemmas
 import IcingaProofs.C17.ObjLemmas
 import IcingaProofs.C17.DeleteLemmas
+import IcingaProofs.C17.InvLemmas
+import IcingaProofs.C17.SpecLemmas
+import IcingaProofs.C17.CascadeLemmas
 import IcingaProofs.C17.PathLemmas
 import IcingaProofs.C17.RoundTrip
 import IcingaModel.C17.Spec
@@ -224,6 +227,8 @@ example : pathExpected ['h'] ['a','/','b'] (confPath ['h'] ['a','/','b']) = true
     `activate_exception_counterexample`; that hypothesis is why the theorem keeps its `_partial` name): either the call reports success without a fault and the state
     gained exactly the active `_api` object, its item and its file; or the state is exactly as before
     (no object, item or file left behind) and `true` is returned only for `ignore_on_error`.
+    Second exclusion, `hs`: the rolled-back Service of a failed name check stays in its host's service map
+    (F-C17k, `rolled_back_service_resolvable_counterexample`).
     Full statement (no `hf`) fails in the model AND in the real code (known finding F-C17i, witness
     corpus/C17/f_c17i_start_throws.ops: a FileLogger whose log file cannot be opened): the catch block at
     configobjectutility.cpp:287-295 removes the file but does not unregister the committed object.
@@ -232,7 +237,7 @@ example : pathExpected ['h'] ['a','/','b'] (confPath ['h'] ['a','/','b']) = true
     apply rules (committed and rolled back together with the object). -/
 theorem create_all_or_nothing_partial (st : St) (k : Key) (path : Str) (parents : List Key) (fault : Fault) (api : Bool)
     (generated : List Key)
-    (hfresh : path ∉ st.files) (hitem : k ∉ st.items) (hf : fault ≠ .activateThrows) :
+    (hfresh : path ∉ st.files) (hitem : k ∉ st.items) (hf : fault ≠ .activateThrows) (hs : fault.leftInHostMap = []) :
     ((createObject st k path parents fault api generated).2 = .ok ∧ fault = .none ∧ st.has k = false ∧
         (createObject st k path parents fault api generated).1.objs =
           { key := k, api := api, active := true, file := path } ::
@@ -251,9 +256,41 @@ theorem create_all_or_nothing_partial (st : St) (k : Key) (path : Str) (parents 
     have h3 : rmFile path (path :: st.files) = st.files := by
       simp [rmFile]; simpa [rmFile] using h1
     by_cases hg : genOk st k generated = true
-    · cases fault <;> simp [hk', hg, h1, h2, h3] at hf ⊢
+    · cases fault <;> simp [hk', hg, h1, h2, h3, Fault.leftInHostMap] at hf hs ⊢
     · have hg' : genOk st k generated = false := by simpa using hg
-      cases fault <;> simp [hk', hg', h1, h2, h3] at hf ⊢
+      cases fault <;> simp [hk', hg', h1, h2, h3, Fault.leftInHostMap] at hf hs ⊢
+
+/-- Every registered configuration item belongs to a registered object — in every state reachable by ANY sequence
+    of creates (every fault) and deletes (cascading or not, aborted by an exception or not). -/
+theorem items_owned_invariant (st : St) (h : ItemsOwned st) (ops : List Op) : ItemsOwned (run st ops) := by
+  induction ops generalizing st with
+  | nil => exact h
+  | cons op ops ih => exact ih (step st op) (step_itemsOwned st op h)
+
+/-- `create_all_or_nothing_partial` in every REACHABLE state: the hypothesis that no item of the requested name is
+    registered (`hitem`) is discharged by `items_owned_invariant`, and nothing is asked about whether the object
+    exists (an existing one is refused and nothing changes).  Remaining hypotheses: the file name is fresh
+    (`confPath_injective` is the reason it is) and the fault is not F-C17i. -/
+theorem create_all_or_nothing_reachable (st0 : St) (h0 : ItemsOwned st0) (ops : List Op)
+    (k : Key) (path : Str) (parents : List Key) (fault : Fault) (api : Bool) (generated : List Key)
+    (hfresh : path ∉ (run st0 ops).files) (hf : fault ≠ .activateThrows) (hs : fault.leftInHostMap = []) :
+    ((createObject (run st0 ops) k path parents fault api generated).2 = .ok ∧ fault = .none ∧ (run st0 ops).has k = false ∧
+        (createObject (run st0 ops) k path parents fault api generated).1.objs =
+          { key := k, api := api, active := true, file := path } ::
+            (generated.map (fun g => { key := g, api := false, active := true, file := [] }) ++ (run st0 ops).objs) ∧
+        (createObject (run st0 ops) k path parents fault api generated).1.items = k :: (generated ++ (run st0 ops).items) ∧
+        (createObject (run st0 ops) k path parents fault api generated).1.files = path :: (run st0 ops).files)
+    ∨ ((createObject (run st0 ops) k path parents fault api generated).1 = run st0 ops ∧
+        ((createObject (run st0 ops) k path parents fault api generated).2 = .ok → fault = .ignored)) := by
+  have hinv := items_owned_invariant st0 h0 ops
+  by_cases hk : (run st0 ops).has k = true
+  · right
+    unfold createObject
+    simp [hk]
+  · have hitem : k ∉ (run st0 ops).items := fun hm => hk (hinv k hm)
+    exact create_all_or_nothing_partial _ k path parents fault api generated hfresh hitem hf hs
+
+example : ItemsOwned ⟨[], [], [], [], []⟩ := by intro k hk; cases hk
 
 /-- All-or-nothing covers the children apply rules generate: a create that fails for ANY reason (here:
     a generated sibling is invalid, `commitFails`) leaves neither the object nor any generated child. -/
@@ -277,14 +314,26 @@ theorem activate_exception_counterexample :
     createObject ⟨[], [], [], [], []⟩ ⟨['H'], ['h']⟩ ['f'] [] .activateThrows =
       (⟨[⟨⟨['H'], ['h']⟩, true, true, ['f']⟩], [⟨['H'], ['h']⟩], [], [], []⟩, .fail) := by decide
 
-/-- A successful delete removes the object, its item and (for an `_api` object) its file, and the
+/-- The other excluded case (F-C17k, reproduced on the real code, corpus/C17/f_c17k_rolled_back_service.ops):
+    `PUT /v1/objects/services/sh!n0!x` fails the name check (the committed Service is called `sh!n0`) and is rolled
+    back — no object, no item, no file — but the rolled-back Service stays in its host's service map:
+    `Service::GetByNamePair("sh", "n0")` finds it, and a Downtime, Comment, Notification or Dependency can then be
+    created for a service that does not exist.  (Hypothesis `hs` of `create_all_or_nothing_partial`.) -/
+theorem rolled_back_service_resolvable_counterexample :
+    let req : Key := ⟨tyService, ['s', 'h', '!', 'n', '0', '!', 'x']⟩
+    let got : Key := ⟨tyService, ['s', 'h', '!', 'n', '0']⟩
+    createObject ⟨[], [], [], [], []⟩ req ['f'] [] (.nameMismatchSvc got) = (⟨[], [], [], [], [got]⟩, .fail) ∧
+      (createObject ⟨[], [], [], [], []⟩ req ['f'] [] (.nameMismatchSvc got)).1.resolvesService got = true := by decide
+
+/-- A delete that reports success has removed the object, its item and (for an `_api` object) its file, and the
     object is no longer resolved through its host (F-C17f, fixed by edf9289: nothing can be created for
-    a deleted service any more). -/
-theorem delete_removes_object_and_file (st : St) (k : Key) (cascade : Bool) (o : Obj)
-    (ho : st.find k = some o) (hok : (deleteObject st k cascade).2 = .ok) :
-    k ∉ (deleteObject st k cascade).1.keys ∧ k ∉ (deleteObject st k cascade).1.items ∧
-      o.file ∉ (deleteObject st k cascade).1.files ∧
-      (deleteObject st k cascade).1.resolvesService k = false := by
+    a deleted service any more) — for every state, with or without cascade, and whatever deactivation the
+    environment answers with an exception (`thr`). -/
+theorem delete_removes_object_and_file (st : St) (k : Key) (cascade : Bool) (o : Obj) (thr : Option Key)
+    (ho : st.find k = some o) (hok : (deleteObject st k cascade thr).2 = .ok) :
+    k ∉ (deleteObject st k cascade thr).1.keys ∧ k ∉ (deleteObject st k cascade thr).1.items ∧
+      o.file ∉ (deleteObject st k cascade thr).1.files ∧
+      (deleteObject st k cascade thr).1.resolvesService k = false := by
   have hkey : o.key = k := by
     have := List.find?_some ho
     simpa using this
@@ -295,7 +344,12 @@ theorem delete_removes_object_and_file (st : St) (k : Key) (cascade : Bool) (o :
     simp only [deleteHelper, List.contains_nil, Bool.false_eq_true, if_false] at hok ⊢
     split
     · rename_i hc; simp [hc] at hok
-    · simp [removeObj, St.keys, St.resolvesService, rmFile, hapi, hkey]
+    · rename_i hc
+      simp only [hc] at hok
+      unfold finishDelete at hok ⊢
+      split
+      · rename_i ht; simp [ht] at hok
+      · simp [removeObj, St.keys, St.resolvesService, rmFile, hapi, hkey]
   · simp [hapi] at hok
 
 /-- Regression for F-C17f (fixed by edf9289): a created and then deleted Service is not resolvable through
@@ -348,7 +402,7 @@ theorem cascade_only_when_asked (st : St) (k : Key) (o : Obj) (ho : st.find k = 
     rw [ho, hf]
     by_cases hapi : o.api = true
     · by_cases hch : children st o.key = []
-      · right; simp [hapi, deleteHelper, hch]
+      · right; simp [hapi, deleteHelper, finishDelete, hch]
       · left; simp [hapi, deleteHelper, hch]
     · left; simp [hapi]
 
@@ -356,39 +410,119 @@ example : deleteObject ⟨[⟨⟨['H'], ['h']⟩, true, true, ['f']⟩, ⟨⟨['
       [], [['f'], ['g']], [(⟨['S'], ['s']⟩, ⟨['H'], ['h']⟩)], []⟩ ⟨['H'], ['h']⟩ true =
     (⟨[], [], [], [], []⟩, .ok) := by decide
 
-/-- A delete — cascading or not, successful or refused, whatever the dependency graph looks like (cycles
-    included) — only ever REMOVES: objects, items and files afterwards are sub-lists of those before; nothing
-    is added, re-ordered or replaced. -/
-theorem delete_only_removes (st : St) (k : Key) (cascade : Bool) :
-    (deleteObject st k cascade).1.objs.Sublist st.objs ∧ (deleteObject st k cascade).1.items.Sublist st.items ∧
-      (deleteObject st k cascade).1.files.Sublist st.files :=
-  ⟨(deleteObject_shrunk st k cascade).objs, (deleteObject_shrunk st k cascade).items, (deleteObject_shrunk st k cascade).files⟩
+/-- A delete — cascading or not, successful, refused or aborted by an exception out of a deactivation (`thr`),
+    whatever the dependency graph looks like (cycles included) — only ever REMOVES: the names, items and files
+    afterwards are sub-lists of those before, and every object that is still there is the object it was, at most
+    deactivated; nothing is added, re-ordered or replaced. -/
+theorem delete_only_removes (st : St) (k : Key) (cascade : Bool) (thr : Option Key) :
+    (deleteObject st k cascade thr).1.keys.Sublist st.keys ∧ (deleteObject st k cascade thr).1.items.Sublist st.items ∧
+      (deleteObject st k cascade thr).1.files.Sublist st.files ∧
+      ∀ x ∈ (deleteObject st k cascade thr).1.objs, ∃ y ∈ st.objs, x = y ∨ x = { y with active := false } :=
+  ⟨(deleteObject_shrunk st k cascade thr).keys, (deleteObject_shrunk st k cascade thr).items,
+   (deleteObject_shrunk st k cascade thr).files, (deleteObject_shrunk st k cascade thr).objs⟩
 
-/-- A cascading delete of a runtime-created object always succeeds and is complete one level down: the
-    object and EVERY live object that depends on it directly are gone afterwards — also when the dependency
-    graph has cycles (an object visited again further down is skipped there, `busy`, and removed by the
-    call that is under way for it).  (Spec clause `cascade_complete` demands the transitive closure on the
-    implementation's trace; for the model only this level and `delete_only_removes` are proved.) -/
-theorem cascade_removes_children (st : St) (k : Key) (o : Obj) (ho : st.find k = some o) (hapi : o.api = true) :
-    (deleteObject st k true).2 = .ok ∧ (deleteObject st k true).1.has k = false ∧
-      ∀ c ∈ children st k, (deleteObject st k true).1.has c = false := by
+/-- A cascading delete of a runtime-created object whose own deactivation does not fail always succeeds and is
+    complete one level down: the object and EVERY live object that depends on it directly are gone afterwards —
+    also when the dependency graph has cycles (an object visited again further down is skipped there, `busy`,
+    and removed by the call that is under way for it) — except a dependent whose deactivation the environment
+    answers with an exception (`thr`; see `cascade_aborted_dependent_counterexample`, F-C17j: the full statement,
+    every dependent gone whenever success is reported, fails in the model and in the real code).
+    (Spec clause `cascade_complete` demands the transitive closure on the implementation's trace; for the model
+    only this level and `delete_only_removes` are proved.) -/
+theorem cascade_removes_children_partial (st : St) (k : Key) (o : Obj) (thr : Option Key) (ho : st.find k = some o)
+    (hapi : o.api = true) (ht : thr ≠ some k) :
+    (deleteObject st k true thr).2 = .ok ∧ (deleteObject st k true thr).1.has k = false ∧
+      ∀ c ∈ children st k, thr ≠ some c → (deleteObject st k true thr).1.has c = false := by
   have hkey : o.key = k := find_key st k o ho
+  have ht' : thr ≠ some o.key := by rw [hkey]; exact ht
   unfold deleteObject
   rw [ho]
   simp only [hapi, Bool.not_true, Bool.false_eq_true, if_false]
-  simp only [deleteHelper, Bool.not_true, Bool.and_false, Bool.false_eq_true, if_false, List.contains_nil, if_true]
-  refine ⟨trivial, ?_, ?_⟩
-  · rw [← hkey]; exact removeObj_has_false _ o
-  · intro c hc
+  simp only [deleteHelper, Bool.not_true, Bool.and_false, Bool.false_eq_true, if_false, List.contains_nil]
+  refine ⟨?_, ?_, ?_⟩
+  · rw [(finishDelete_removes _ o thr ht').2]; rfl
+  · rw [← hkey]; exact (finishDelete_removes _ o thr ht').1
+  · intro c hc htc
     by_cases hck : c = o.key
-    · rw [hck]; exact removeObj_has_false _ o
-    · apply (removeObj_shrunk _ o).has_false
+    · rw [hck]; exact (finishDelete_removes _ o thr ht').1
+    · apply (finishDelete_shrunk _ o thr).has_false
       apply foldl_children_removed
       · rw [hkey]; exact hc
       · simpa using hck
+      · exact htc
+
+/-- The unconditional form (no fault): what the theorem was before the fault was modelled. -/
+theorem cascade_removes_children (st : St) (k : Key) (o : Obj) (ho : st.find k = some o) (hapi : o.api = true) :
+    (deleteObject st k true).2 = .ok ∧ (deleteObject st k true).1.has k = false ∧
+      ∀ c ∈ children st k, (deleteObject st k true).1.has c = false := by
+  have h := cascade_removes_children_partial st k o none ho hapi (by simp)
+  exact ⟨h.1, h.2.1, fun c hc => h.2.2 c hc (by simp)⟩
+
+/-- F-C17j (reproduced on the real code, corpus/C17/f_c17j_cascade_aborted_dependent.ops): the deactivation of a
+    dependent fails in the middle of a cascade; `DeleteObjectHelper` ignores the result of the call it made for the
+    dependent (configobjectutility.cpp:351-353), removes the object itself and reports success: the dependent stays
+    behind — registered, deactivated, with its item and its file — and refers to an object that no longer exists. -/
+theorem cascade_aborted_dependent_counterexample :
+    let h : Key := ⟨['H'], ['h']⟩
+    let s : Key := ⟨['S'], ['s']⟩
+    let st : St := ⟨[⟨h, true, true, ['f']⟩, ⟨s, true, true, ['g']⟩], [h, s], [['f'], ['g']], [(s, h)], []⟩
+    deleteObject st h true (some s) = (⟨[⟨s, true, false, ['g']⟩], [s], [['g']], [], []⟩, .ok) := by decide
+
+/-- A deletion aborted by an exception out of the object's deactivation, then tried again (the history of seeded
+    change C17-12): for EVERY state and every active runtime object without live dependents, the aborted call
+    reports failure and leaves the object whole (registered, item and file untouched, only deactivated) — and the
+    next delete of it, on whatever thread, succeeds and removes object, item and file: nothing of the aborted
+    attempt (such as an entry in `l_DeletionInProgress`, which is released at EVERY exit) stands in its way. -/
+theorem aborted_delete_then_retry (st : St) (k : Key) (c c' : Bool) (o : Obj) (ho : st.find k = some o)
+    (hapi : o.api = true) (hact : o.active = true) (hch : children st k = []) :
+    deleteObject st k c (some k) = (deactivateObj st o, .fail) ∧
+      (deactivateObj st o).has k = true ∧ (deactivateObj st o).items = st.items ∧ (deactivateObj st o).files = st.files ∧
+      (deleteObject (deactivateObj st o) k c').2 = .ok ∧
+      k ∉ (deleteObject (deactivateObj st o) k c').1.keys ∧ k ∉ (deleteObject (deactivateObj st o) k c').1.items ∧
+      o.file ∉ (deleteObject (deactivateObj st o) k c').1.files := by
+  have hkey : o.key = k := find_key st k o ho
+  have hfind := deactivateObj_find st k o ho
+  have hch' := deactivateObj_children st o k hch
+  have hok : (deleteObject (deactivateObj st o) k c').2 = .ok := by
+    unfold deleteObject
+    rw [hfind]
+    simp [hapi, deleteHelper, finishDelete, hkey, hch']
+  have hrm := delete_removes_object_and_file (deactivateObj st o) k c' _ none hfind hok
+  refine ⟨?_, ?_, rfl, rfl, hok, hrm.1, hrm.2.1, hrm.2.2.1⟩
+  · unfold deleteObject
+    rw [ho]
+    simp [hapi, deleteHelper, finishDelete, hkey, hch, hact]
+  · have : k ∈ (deactivateObj st o).keys := by
+      rw [deactivateObj_keys]
+      have hm := List.mem_of_find?_eq_some ho
+      simp only [St.keys, List.mem_map]
+      exact ⟨o, hm, hkey⟩
+    cases h : (deactivateObj st o).has k
+    · exact absurd this ((has_false_iff _ k).mp h)
+    · rfl
+
+example : children ⟨[⟨⟨['U'], ['u']⟩, true, true, ['f']⟩], [⟨['U'], ['u']⟩], [['f']], [], []⟩ ⟨['U'], ['u']⟩ = [] ∧
+    deleteObject ⟨[⟨⟨['U'], ['u']⟩, true, true, ['f']⟩], [⟨['U'], ['u']⟩], [['f']], [], []⟩ ⟨['U'], ['u']⟩ false (some ⟨['U'], ['u']⟩) =
+      (⟨[⟨⟨['U'], ['u']⟩, true, false, ['f']⟩], [⟨['U'], ['u']⟩], [['f']], [], []⟩, .fail) := by decide
 
 example : children ⟨[⟨⟨['H'], ['h']⟩, true, true, ['f']⟩, ⟨⟨['S'], ['s']⟩, true, true, ['g']⟩],
       [], [['f'], ['g']], [(⟨['S'], ['s']⟩, ⟨['H'], ['h']⟩)], []⟩ ⟨['H'], ['h']⟩ = [⟨['S'], ['s']⟩] := by decide
+
+/-- Whatever a delete removes — cascading or not, aborted by an exception or not, whatever the dependency graph looks
+    like (cycles included) — is the object itself or an object that depends on it, directly or through others, along
+    the dependency edges of the state before (`DependsOn`: reflexive-transitive closure): nothing unrelated ever goes.
+    (Spec clause `cascade_only_dependents`, here proved of the model for every state; with `delete_only_removes`:
+    the effect of a delete is confined to removing dependents.) -/
+theorem cascade_only_dependents (st : St) (k : Key) (cascade : Bool) (thr : Option Key) (x : Key)
+    (hx : x ∈ st.keys) (hn : x ∉ (deleteObject st k cascade thr).1.keys) : DependsOn st.deps x k :=
+  deleteObject_only_dependents st k cascade thr x hx hn
+
+example : DependsOn [((⟨['S'], ['s']⟩ : Key), (⟨['H'], ['h']⟩ : Key))] ⟨['S'], ['s']⟩ ⟨['H'], ['h']⟩ :=
+  .step (.refl _) (by decide)
+
+/-- an unrelated object survives a cascade -/
+example : (deleteObject ⟨[⟨⟨['H'], ['h']⟩, true, true, ['f']⟩, ⟨⟨['S'], ['s']⟩, true, true, ['g']⟩, ⟨⟨['U'], ['u']⟩, true, true, ['e']⟩],
+      [], [['f'], ['g'], ['e']], [(⟨['S'], ['s']⟩, ⟨['H'], ['h']⟩)], []⟩ ⟨['H'], ['h']⟩ true).1.keys = [⟨['U'], ['u']⟩] := by decide
 
 /-- What appears as a side effect of a create (the children apply rules generate for the new object) is
     never a runtime (`_api`) object: whatever the outcome, every object of the resulting state is the
@@ -402,7 +536,7 @@ theorem generated_children_not_runtime (st : St) (k : Key) (path : Str) (parents
   · simp [hk]; grind
   · have hk' : st.has k = false := by simpa using hk
     by_cases hg : genOk st k generated = true
-    · cases fault <;> simp [hk', hg] <;> grind
+    · cases fault <;> simp [hk', hg, Fault.leftInHostMap] <;> grind
     · have hg' : genOk st k generated = false := by simpa using hg
       cases fault <;> simp [hk', hg'] <;> grind
 
@@ -417,5 +551,225 @@ theorem unique_names (st : St) (h : st.keys.Nodup) (ops : List Op) : (run st ops
   | cons op ops ih => exact ih (step st op) (step_nodup st op h)
 
 example : (St.keys ⟨[], [], [], [], []⟩).Nodup := by decide
+
+/-! ## The specification predicate on the model's own steps -/
+
+/-- THE SPECIFICATION ON THE MODEL'S OWN STEP, non-cascading deletes: in every state with unique names in which
+    distinct runtime objects have distinct files (`confPath_injective`), `specDelete` — the predicate the check
+    evaluates on the implementation's observations — accepts what the model does for `delete k` without cascade,
+    whatever `k` is: absent, not created at runtime, refused because of live dependents, or deleted.  (`created`,
+    `fileOf`, `deps`: the driver's book-keeping, here read off the state.) -/
+theorem noncascading_delete_meets_spec (st : St) (k : Key) (hnd : st.keys.Nodup)
+    (hfiles : ∀ a ∈ st.objs, ∀ b ∈ st.objs, a.api = true → b.api = true → a.file = b.file → a = b) :
+    specDelete (observe st) k false (st.has k)
+      (if st.has k then some (deleteObject st k false).2 else none)
+      (createdOf st) (fileOfSt st) st.deps (observe (deleteObject st k false).1) = none := by
+  have hshr := deleteObject_shrunk st k false none
+  have hnd' : nodupKeys ((observe (deleteObject st k false).1).objs.map (·.key)) = true := by
+    rw [observe_keys]; exact nodupKeys_of_nodup _ (hshr.keys.nodup hnd)
+  have hreg := observe_allRegistered (deleteObject st k false).1
+  cases ho : st.find k with
+  | none =>
+    have hhas := find_none_has st k ho
+    have hst : (deleteObject st k false).1 = st := by simp [deleteObject, ho]
+    simp only [hst] at hnd' hreg
+    unfold specDelete
+    simp [hnd', hreg, hhas, hst]
+  | some o =>
+    have hkey := find_key st k o ho
+    have hhas := find_has st k o ho
+    have hfind : (observe st).find k = some (observeObj o) := by rw [observe_find, ho]; rfl
+    by_cases hapi : o.api = true
+    · have hcr := createdOf_contains st k o ho hapi
+      by_cases hch : children st k = []
+      · have hst : deleteObject st k false = (removeObj st o, .ok) := by
+          simp [deleteObject, ho, hapi, deleteHelper, finishDelete, hkey, hch]
+        simp only [hst] at hnd' hreg
+        unfold specDelete
+        simp only [hnd', hreg, hhas, hst, hfind, observeObj, hapi, hcr, kids_eq_children, hch]
+        simp
+        have hom : o ∈ st.objs := List.mem_of_find?_eq_some ho
+        have fa : (observe (removeObj st o)).has k = false := by
+          rw [observe_has, ← hkey]; exact removeObj_has_false st o
+        have fb : k ∉ (observe (removeObj st o)).items := by simp [observe, removeObj, hkey]
+        have fc : o.file ∉ (observe (removeObj st o)).files := by simp [observe, removeObj, hapi, rmFile]
+        have hfk := fileOfKey_find st k o ho hapi
+        have G : ∀ x ∈ (observe st).objs, (observe (removeObj st o)).has x.key = false → x.key = k := by
+          intro x hx hgone
+          simp only [observe, List.mem_map] at hx
+          obtain ⟨a, ha, rfl⟩ := hx
+          by_cases hne : a.key = o.key
+          · simpa [observeObj, hkey] using hne
+          · have := removeObj_has_other st o a ha hne
+            rw [observe_has] at hgone
+            simp only [observeObj] at hgone
+            rw [this] at hgone
+            cases hgone
+        have hsub : subsetKeys (List.map (fun x => x.key)
+            (List.filter (fun x => !(observe (removeObj st o)).has x.key) (observe st).objs)) [k] = true := by
+          simp only [subsetKeys, List.all_eq_true, List.mem_map, List.mem_filter]
+          rintro y ⟨x, ⟨hx, hg⟩, rfl⟩
+          have := G x hx (by simpa using hg)
+          simp [this]
+        simp only [hfk]
+        split
+        · rename_i h
+          exfalso
+          simp [fa, fb, fc] at h
+        split
+        · rename_i h
+          rw [hsub] at h
+          cases h
+        split
+        · rename_i h
+          exfalso
+          rcases h with h | ⟨x, hx, hg, h⟩
+          · rw [fa] at h; cases h
+          · have hxk := G x hx hg
+            rw [hxk, hfk] at h
+            rcases h with h | h
+            · exact fb h
+            · exact fc (by simpa using h)
+        split
+        · rename_i h
+          exfalso
+          obtain ⟨x, hx, ⟨hstay, _⟩, h⟩ := h
+          have hxk : x.key ≠ k := by
+            intro e; rw [e, fa] at hstay; cases hstay
+          rcases h with ⟨hi, hni⟩ | h
+          · apply hni
+            simp only [observe, removeObj, List.mem_filter] at hi ⊢
+            exact ⟨hi, by simpa [hkey] using hxk⟩
+          · cases hp : fileOfKey (fileOfSt st) x.key with
+            | none => simp [hp] at h
+            | some p =>
+              simp only [hp, Bool.and_eq_true, decide_eq_true_eq, Bool.not_eq_true', decide_eq_false_iff_not] at h
+              obtain ⟨b, hb, hbapi, hbk, hbf⟩ := fileOfKey_owner st x.key p hp
+              by_cases hpo : p = o.file
+              · have := hfiles b hb o hom hbapi hapi (by rw [hbf, hpo])
+                apply hxk
+                rw [← hbk, this, hkey]
+              · apply h.2
+                simp only [observe, removeObj, hapi, if_true, rmFile, List.mem_filter]
+                exact ⟨h.1, by simpa using hpo⟩
+        split
+        · rename_i h
+          exfalso
+          rcases h with ⟨x, hx, hnx⟩ | h
+          · apply hnx
+            simp only [observe, removeObj, List.mem_map, List.mem_filter] at hx ⊢
+            obtain ⟨a, ⟨ha, _⟩, rfl⟩ := hx
+            exact ⟨a, ha, rfl⟩
+          · exact h rfl
+        · rfl
+      · have hst : deleteObject st k false = (st, .fail) := by
+          simp [deleteObject, ho, hapi, deleteHelper, hkey, hch]
+        simp only [hst] at hnd' hreg
+        unfold specDelete
+        simp [hnd', hreg, hhas, hst, hfind, observeObj, hapi, kids_eq_children, hch]
+    · have hst : deleteObject st k false = (st, .fail) := by
+        simp [deleteObject, ho, hapi]
+      simp only [hst] at hnd' hreg
+      unfold specDelete
+      simp [hnd', hreg, hhas, hst, hfind, observeObj, hapi]
+
+/-- … and the aborted delete (the exception out of the object's deactivation, fault `thr = some k`): the model fails,
+    leaves the object deactivated and otherwise whole, and `specDelete` with that fault accepts exactly this. -/
+theorem aborted_delete_meets_spec (st : St) (k : Key) (o : Obj) (hnd : st.keys.Nodup)
+    (ho : st.find k = some o) (hapi : o.api = true) (hact : o.active = true) (hch : children st k = []) :
+    deleteObject st k false (some k) = (deactivateObj st o, .fail) ∧
+    specDelete (observe st) k false true (some .fail)
+      (createdOf st) (fileOfSt st) st.deps (observe (deactivateObj st o)) (some k) = none := by
+  have hkey := find_key st k o ho
+  have hst : deleteObject st k false (some k) = (deactivateObj st o, .fail) := by
+    simp [deleteObject, ho, hapi, deleteHelper, finishDelete, hkey, hch, hact]
+  refine ⟨hst, ?_⟩
+  have hnd' : nodupKeys ((observe (deactivateObj st o)).objs.map (·.key)) = true := by
+    rw [observe_keys, deactivateObj_keys]; exact nodupKeys_of_nodup _ hnd
+  have hreg := observe_allRegistered (deactivateObj st o)
+  have hfind : (observe st).find k = some (observeObj o) := by rw [observe_find, ho]; rfl
+  have hcr := createdOf_contains st k o ho hapi
+  have hhas : ∀ x, (observe (deactivateObj st o)).has x = (observe st).has x := by
+    intro x
+    rw [observe_has, observe_has]
+    cases h : st.has x
+    · rw [has_false_iff] at h ⊢; rw [deactivateObj_keys]; exact h
+    · rw [has_true_iff] at h ⊢; rw [deactivateObj_keys]; exact h
+  unfold specDelete
+  simp only [hnd', hreg, hfind, observeObj, hapi, hcr, kids_eq_children, hch, hhas]
+  simp
+  have hlive : ∀ x ∈ (observe st).objs, (observe st).has x.key = true := by
+    intro x hx
+    simp only [World.has, List.any_eq_true]
+    exact ⟨x, hx, by simp⟩
+  have hitems : (observe (deactivateObj st o)).items = (observe st).items := rfl
+  have hfilesEq : (observe (deactivateObj st o)).files = (observe st).files := rfl
+  split
+  · rename_i h
+    exfalso
+    have : subsetKeys (List.map (fun x => x.key) (List.filter (fun x => !(observe st).has x.key) (observe st).objs)) [k] = true := by
+      simp only [subsetKeys, List.all_eq_true, List.mem_map, List.mem_filter]
+      rintro y ⟨x, ⟨hx, hg⟩, rfl⟩
+      rw [hlive x hx] at hg
+      cases hg
+    rw [this] at h
+    cases h
+  split
+  · rename_i h
+    exfalso
+    obtain ⟨x, hx, hg, _⟩ := h
+    rw [hlive x hx] at hg
+    cases hg
+  split
+  · rename_i h
+    exfalso
+    obtain ⟨x, hx, _, h⟩ := h
+    rw [hitems, hfilesEq] at h
+    rcases h with ⟨hi, hni⟩ | h
+    · exact hni hi
+    · cases hp : fileOfKey (fileOfSt st) x.key with
+      | none => simp [hp] at h
+      | some p => simp [hp] at h
+  split
+  · rename_i h
+    exfalso
+    rcases h with ⟨x, hx, hnx, hd⟩ | h
+    · simp only [observe, deactivateObj, List.mem_map] at hx
+      obtain ⟨a', ⟨a, ha, rfl⟩, rfl⟩ := hx
+      by_cases hak : a.key = o.key
+      · simp only [hak, if_true] at hnx hd
+        exact hd (by simp [observeObj, hkey]) (observeObj a) (by simp only [observe, List.mem_map]; exact ⟨a, ha, rfl⟩)
+          (by simp [deactivated, observeObj, hak])
+      · simp only [hak, if_false] at hnx
+        exact hnx (by simp only [observe, List.mem_map]; exact ⟨a, ha, rfl⟩)
+    · exact h rfl
+  · rfl
+
+/-- Along every operation sequence (any creates with any faults, any deletes, aborted or not) from a state with
+    unique names: what the model does for a non-cascading delete in the state reached meets the specification.
+    `hfiles` (distinct runtime objects have distinct files in the state reached) is what `confPath_injective` gives
+    when every create writes to `confPath`; it is not proved as an invariant of `run` (the path is an oracle input). -/
+theorem noncascading_delete_meets_spec_along_run (st0 : St) (h0 : st0.keys.Nodup) (ops : List Op) (k : Key)
+    (hfiles : ∀ a ∈ (run st0 ops).objs, ∀ b ∈ (run st0 ops).objs, a.api = true → b.api = true → a.file = b.file → a = b) :
+    specDelete (observe (run st0 ops)) k false ((run st0 ops).has k)
+      (if (run st0 ops).has k then some (deleteObject (run st0 ops) k false).2 else none)
+      (createdOf (run st0 ops)) (fileOfSt (run st0 ops)) (run st0 ops).deps
+      (observe (deleteObject (run st0 ops) k false).1) = none :=
+  noncascading_delete_meets_spec (run st0 ops) k (unique_names st0 h0 ops) hfiles
+
+/-- the specification is not vacuous: the trace of seeded change C17-12 (a retry that reports success and removes
+    nothing) is rejected -/
+example :
+    let u : Key := ⟨['U'], ['u']⟩
+    let st : St := ⟨[⟨u, true, false, ['f']⟩], [u], [['f']], [], []⟩
+    specDelete (observe st) u false true (some .ok) (createdOf st) (fileOfSt st) st.deps (observe st) =
+      some "delete_removes_object_and_file" := by decide
+
+/-- the hypotheses are satisfiable on a non-trivial state, and the accepted step is the deletion -/
+example :
+    let u : Key := ⟨['U'], ['u']⟩
+    let g : Key := ⟨['G'], ['g']⟩
+    let st : St := ⟨[⟨u, true, true, ['f']⟩, ⟨g, true, true, ['h']⟩], [u, g], [['f'], ['h']], [(u, g)], []⟩
+    st.keys.Nodup ∧ (deleteObject st u false).2 = .ok ∧ (deleteObject st g false).2 = .fail := by decide
 
 end Icinga.C17
